@@ -102,6 +102,7 @@ def gen_table_case(rng):
     if fmt != 'ob-raw-dump':
         c['renderer'] = rng.choice(['choice', 'choice', 'writer-min', 'writer-all'])
         c['quote'] = [rng.choice([0, 0, 1]) for _ in row] if rng.random() < 0.8 else [rng.choice([0, 1])] * len(row)
+        c['delim'] = rng.choice([',', ',', '\t', ';'])
     return c
 
 
@@ -275,7 +276,9 @@ def outcome(f):
 def impl_table(c, text):
     from outrank.core_utils import generic_line_parser
     args = types.SimpleNamespace(data_source=c['fmt'])
-    delim = '\t' if c['fmt'] == 'ob-raw-dump' else ','
+    # CSV sources: the delimiter argument is the caller's (the ranking task passes ',', the instance-ranking task and the default
+    # of estimate_importances_minibatches pass a tab); a CSV line is comma-separated whatever arrives here
+    delim = '\t' if c['fmt'] == 'ob-raw-dump' else c.get('delim', ',')
     return outcome(lambda: generic_line_parser(text, delim, args, None, None))
 
 
@@ -452,6 +455,8 @@ class _Eval:
         text = table_text(c)
         got = impl_table(c, text)
         ctx.count('table:' + fmt)
+        if fmt != 'ob-raw-dump':
+            ctx.count('csv-delimiter-argument:' + repr(c.get('delim', ',')))
         ctx.count('term:' + repr(c['term']))
         edge_empty = row[0] == '' or row[-1] == ''
         edge_ws = any(x and (x[0] in ISSPACE_ALL or x[-1] in ISSPACE_ALL) for x in row)
